@@ -511,6 +511,22 @@ func runFraming(r *core.Run) {
 			return k
 		}
 	}
+	if !exhaustive && c.Prob(1, 6) {
+		// a Read may return (0, nil); never twice in a row here, so progress stays guaranteed
+		last := false
+		conn.ZeroRead = func() bool {
+			if last {
+				last = false
+				return false
+			}
+			if c.Prob(1, 4) {
+				last = true
+				r.Fault("zero_read")
+				return true
+			}
+			return false
+		}
+	}
 	if !exhaustive && c.Prob(1, 3) {
 		// the read that hands over the last octets before the stream ends or fails reports the error with them
 		conn.DataErr = true
